@@ -182,6 +182,11 @@ impl Reasoner {
                 }
             }
         }
+        // A consistent set found early is not compared against larger consistent sets found later,
+        // so drop every candidate that is a strict subset of another one: only the subset-maximal
+        // consistent sets are repairs.
+        let candidates = repairs.clone();
+        repairs.retain(|r| !candidates.iter().any(|o| o.len() > r.len() && o.is_superset(r)));
         repairs
     }
 }
